@@ -323,6 +323,30 @@ class Model:
                     return self.resolve_dotted(m.imports[tail], _depth + 1)
         return None
 
+    def global_constant(self, mi: ModuleInfo, name: str, _depth: int = 0):
+        """Value (str/int/float/bool) of a module-level constant visible as ``name`` in module ``mi``:
+        assigned exactly once at module level to a literal and never declared ``global`` in a function."""
+        if name in mi.global_assigns:
+            sts = mi.global_assigns[name]
+            if len(sts) != 1:
+                return None
+            st = sts[0]
+            val = st.value if isinstance(st, (ast.Assign, ast.AnnAssign)) else None
+            if not isinstance(val, ast.Constant) or not isinstance(val.value, (str, int, float, bool)):
+                return None
+            for n in ast.walk(mi.tree):
+                if isinstance(n, ast.Global) and name in n.names:
+                    return None
+            return val.value
+        if name in mi.imports and _depth < 4:
+            dotted = mi.imports[name]
+            if "." in dotted:
+                head, tail = dotted.rsplit(".", 1)
+                m2 = self.by_dotted.get(head)
+                if m2 is not None:
+                    return self.global_constant(m2, tail, _depth + 1)
+        return None
+
     # ------------------------------------------------------------ call graph
     def resolve_call(self, fi: FuncInfo, call: ast.Call, local_types: Optional[dict[str, str]] = None) -> list[FuncInfo]:
         """Callees of a call expression inside ``fi`` (possibly several when the
